@@ -238,7 +238,8 @@ def run(shard, rec):
 
         def V(mech, k, text, extra=None):
             f = {'mechanism': mech, 'op': ops[k]['kind'] if k is not None else None,
-                 'party_named_twice': k is not None and any(isinstance(ops[k].get(key), list) and ops[k][key][:1] != ['range'] and len(set(ops[k][key])) < len(ops[k][key]) for key in ('S', 'R'))}
+                 'party_named_twice': k is not None and any(isinstance(o_.get(key), list) and o_[key][:1] != ['range'] and len(set(o_[key])) < len(o_[key])
+                                                            for o_ in (ops[k], ops[k].get('prev') or {}) for key in ('S', 'R'))}
             f.update(extra or {})
             rec.violation(f'{shard["name"]} program {pi} op {k} {ops[k] if k is not None else ""}: {text}', f, {'ops': ops, 'policy': policy, 'sched_seed': sseed}, case=case)
         # classify a non-completing world by the first operation that some party did not get past
